@@ -11,6 +11,8 @@ git -C /repo worktree add -q --detach $WT HEAD || exit 2
 export VERIF_SKIP_SEED_REPLAYS=1 VERIF_EVIDENCE_DIR=/tmp/seedrun-evidence VERIF_NEWREPLAY_DIR=/tmp/seedrun-replays VERIF_REPO=$WT
 rm -rf $VERIF_EVIDENCE_DIR $VERIF_NEWREPLAY_DIR
 SEEDS=${@:-$(ls seeded)}
+# a run at another VERIF_SEED is recorded next to the seed-1 result, not over it
+SEEDSFX=""; [ -n "${VERIF_SEED:-}" ] && [ "${VERIF_SEED}" != 1 ] && SEEDSFX="-seed${VERIF_SEED}"
 for spec in $SEEDS; do
   s=${spec%%:*}
   d=seeded/$s
@@ -26,7 +28,7 @@ for spec in $SEEDS; do
   WHY=$(echo "$OUT" | grep -m1 "^  why:" | cut -c1-300 | sed 's/"/\\"/g; s/\\x/\\\\x/g')
   case $RC in 1) RES=detected;; 0) RES=missed;; *) RES=harness-error;; esac
   printf '{"seed": "%s", "check": "%s", "tier": "%s", "result": "%s", "seconds": %d, "repo_head": "%s", "first_reason": "%s"}\n' \
-    "$s" "$ID" "$TIER" "$RES" $((T1-T0)) "$(git -C /repo rev-parse --short HEAD)" "$WHY" > $d/detection${CROSS:+-$ID}.json
+    "$s" "$ID" "$TIER" "$RES" $((T1-T0)) "$(git -C /repo rev-parse --short HEAD)" "$WHY" > $d/detection${CROSS:+-$ID}${SEEDSFX}.json
   # keep the (shrunk) failing case as a regression replay: it must pass on the unchanged tree and fails with this change
   if [ "$RES" = detected ] && [ -n "${KEEP_CASES:-}" ]; then
     f=$(ls $VERIF_NEWREPLAY_DIR/$ID/*.case 2>/dev/null | grep -v -e crash -e fuzz | head -1)
